@@ -11,8 +11,8 @@ import sys
 import time
 
 ROOT = "/verif"
-SPEC = ROOT + "/spec"
-# (development only: VERIF_HARNESS / VERIF_WORK let a second copy of the harness, built against a scratch
+SPEC = os.environ.get("VERIF_SPEC", ROOT + "/spec")
+# (development only: VERIF_HARNESS / VERIF_WORK / VERIF_SPEC let a second copy of the harness, built against a scratch
 # worktree, run side by side; the registered commands never set them)
 WORK = os.environ.get("VERIF_WORK", ROOT + "/work")
 HARNESS = os.environ.get("VERIF_HARNESS", ROOT + "/harness")
